@@ -62,8 +62,11 @@ def mkexpr(e):
                 ctx = ctx[f]
             return ctx
         return by_item
-    if k == "list":
-        return C.list_[e[1]]
+    if k == "list":                      # ["list"] the list itself; ["list", i, j, ...] an item path below it
+        x = C.list_
+        for f in e[1:]:
+            x = x[f]
+        return x
     if k == "fn":
         return {"len": C.len_, "sum": C.sum_, "min": C.min_, "max": C.max_, "abs": C.abs_}[e[1]](mkexpr(e[2]))
     if k == "un":
@@ -91,7 +94,10 @@ def evalexpr(e, scope, obj=None, lst=None):
             v = v[f]
         return v
     if k == "list":
-        return lst[e[1]]
+        v = lst
+        for f in e[1:]:
+            v = v[f]
+        return v
     if k == "fn":
         return FUNCS[e[1]](evalexpr(e[2], scope, obj, lst))
     if k == "un":
